@@ -31,6 +31,14 @@
       XML) passed the guard and was a checked radio of its group: `select(':indeterminate')` gave
       `[]` where `match(':indeterminate', r2)` gave `True`.  The lemma was then provable only
       under `c.isXml = false`; that restriction is gone.
+      Fix 01d00ae completes the alignment of scan and guard: the `type` VALUE is now compared as
+      `[type="radio"]` compares it (exactly in XML).  The side condition never mentioned the value
+      (it follows from `:not([checked])` alone), so no hypothesis of this file changes; what became
+      provable is the restatement of the scan in the guard's atoms for every document kind
+      (`C17.checkedRadio_is_guard_radio`, `C17.radioCheckedScan_def`).
+      Fix 8eff4e2 adds `c.isHtmlTag ce` to the per-control test (`Memo.isCheckedRadioOf`: only HTML
+      elements are group members); the side condition is about the ASKER, which the guard already
+      requires to be an HTML `input`, so again nothing changes here (`C17.scanMember_guarded`).
     * A selector built by hand that sets `SEL_INDETERMINATE` without the guard is outside
       `history_independent` (`Admissible` asks for the side condition).
 
@@ -203,7 +211,7 @@ def radioStep (isXml : Bool) (name : Option NVal) (a : Attr) (isRadio check hasN
     Bool × Bool × Bool :=
   let k := if !isXml then lower a.key else a.key
   let v := normalizeValue a.val
-  if k == "type".toStr && (match v with | .str s => lower s == "radio".toStr | .list _ => false) then (true, check, hasName)
+  if k == "type".toStr && (match v with | .str s => (if isXml then s else lower s) == "radio".toStr | .list _ => false) then (true, check, hasName)
   else if k == "name".toStr && some v == name then (isRadio, check, true)
   else if k == "checked".toStr then (isRadio, true, hasName)
   else (isRadio, check, hasName)
@@ -267,7 +275,7 @@ theorem noChecked_of_guard (c : Ctx) (e : Elem)
   split at hguard
   · rename_i hns
     simp only [List.isEmpty_nil, Bool.not_true, Bool.false_eq_true, if_false, hstar', Bool.not_false,
-      Option.isNone_none, Bool.and_true, Bool.true_or, if_true, hlow, Option.map_eq_none_iff,
+      nsFalsy_none, Bool.and_true, Bool.true_or, if_true, hlow, Option.map_eq_none_iff,
       List.find?_eq_none] at hguard
     have := hguard a ha
     cases hx : c.isXml with
